@@ -56,6 +56,17 @@ def check(ck):
     with ck.rule("R4"):
         _deprecation_and_hiding(ck, repo)
         schema_marked_non_introspectable(ck, repo)
+        # deprecation reasons (and every other directive argument shown or acted on) are read per directive *instance*: each
+        # instance's arguments coercer is bound to its own node and definition (C13.R2)
+        from .c13 import bound_coerce_arguments
+        g_ = repo.func("tartiflette/types/helpers/get_directive_instances.py", "compute_directive_nodes")
+        site_, kw_ = bound_coerce_arguments(repo, g_)
+        lps_ = [l for l in FuncView(g_).loops() if isinstance(l, ast.For) and unparse(l.iter) == g_.positional_params[1]]
+        node_var = unparse(lps_[0].target) if lps_ else "directive_node"
+        ok_ = kw_ is not None and kw_.get("node") == node_var and kw_.get("argument_definitions", "").endswith(".arguments") and site_ is not None and \
+            (not lps_ or any(x is site_ for x in ast.walk(lps_[0])) or isinstance(site_, ast.Call) and any(x is site_ for l_ in lps_ for x in ast.walk(l_)))
+        ck.ob("compute_directive_nodes: each directive instance reads its arguments from its own node (deprecation reasons are not mixed up between directives of one element)",
+              bool(ok_), g_, site_ if site_ is not None else g_.node, construct="deprecated:instance-arguments", detail=str(kw_))
     with ck.rule("R5"):
         _sdl_assembly(ck, repo)
     with ck.rule("R6"):
@@ -255,36 +266,7 @@ def _ast_to_schema(ck, repo):
     keys = {k.value for k in dct[0].keys} if dct else set()
     ck.ob("parse_input_value_definition forwards name, description, type, default value and directives", keys == {"name", "description", "gql_type", "default_value", "directives"}, iv,
           dct[0] if dct else iv.node, construct="builder:input-value:forwards")
-    # extensions merge every constructor parameter except the name
-    for rel, cls, parts in (("tartiflette/types/enum.py", "GraphQLEnumTypeExtension", {"directives": "directives", "values": "values"}),
-                            ("tartiflette/types/input_object.py", "GraphQLInputObjectTypeExtension", {"input_fields": "input_fields", "directives": "directives"}),
-                            ("tartiflette/types/object.py", "GraphQLObjectTypeExtension", {"directives": "directives", "fields": "implemented_fields", "interfaces": "interfaces_names"}),
-                            ("tartiflette/types/interface.py", "GraphQLInterfaceTypeExtension", {"directives": "directives", "fields": "implemented_fields"}),
-                            ("tartiflette/types/scalar.py", "GraphQLScalarTypeExtension", {"directives": "directives"}),
-                            ("tartiflette/types/union.py", "GraphQLUnionTypeExtension", {"directives": "directives", "types": "types"})):
-        b = repo.func(rel, f"{cls}.bake")
-        bv = FuncView(b)
-        _extension_merge_terms(ck, repo, b, cls, parts)
-        ft = bv.maybe_call("find_type")
-        ck.ob(f"{cls}.bake extends the type of the same name", ft is not None and [unparse(a) for a in ft.args] == ["self.name"], b, ft or b.node, construct=f"extension:{cls}:target")
-    # contradiction rule: an attribute defaulted to a list cannot be merged with dict methods (and vice versa)
-    DICT_ONLY, LIST_ONLY = {"items", "keys", "values", "get", "setdefault", "popitem"}, {"append", "extend", "insert", "sort", "reverse"}
-    ext_classes = [c for c in repo.all_classes() if c.name.endswith("Extension") and c.module.relpath.startswith("tartiflette/types/") and "bake" in c.methods and "__init__" in c.methods]
-    ck.count("extension_classes", len(ext_classes), 7)
-    for c in sorted(ext_classes, key=lambda c: c.name):
-        for attr, v in c.self_attrs().items():
-            lit = v.values[-1] if isinstance(v, ast.BoolOp) and isinstance(v.op, ast.Or) else None
-            if not isinstance(lit, (ast.List, ast.Dict)):
-                continue
-            used = set()
-            for m in c.methods.values():
-                for n in walk_no_nested(m.node):
-                    if isinstance(n, ast.Attribute) and isinstance(n.value, ast.Attribute) and unparse(n.value) == f"self.{attr}":
-                        used.add(n.attr)
-            bad = (used & DICT_ONLY) if isinstance(lit, ast.List) else (used & LIST_ONLY)
-            ck.ob(f"{c.name}: the default of `{attr}` ({'list' if isinstance(lit, ast.List) else 'dict'}) agrees with how bake merges it", not bad, c.methods["__init__"],
-                  c.methods["__init__"].node, construct=f"extension:{c.name}:default:{attr}",
-                  detail=f"methods used: {sorted(used)}; a mismatch raises inside bake, GraphQLSchema.bake swallows it and every later extension is silently dropped")
+    extension_rules(ck, repo)
     schema_extension_merges(ck, repo)
     from .c12 import bake_pipeline
     bake_pipeline(ck, repo)
@@ -666,6 +648,32 @@ def _extension_merge_terms(ck, repo, b, cls, parts):
             all(absint.norm(other.attrs[k]) == absint.norm(old[k]) for k in old) and set(extended.attrs) - {"_strict"} == set(old)
         ck.ob(f"{cls}.bake merges {sorted(parts)} into the extended type" + (" (an empty extension changes nothing)" if empty else ""), ok, b, b.node,
               construct=f"extension:{cls}:merges" + (":empty" if empty else ""), detail=why or f"extended type afterwards: {got}")
+    # an extension as its constructor leaves it when the SDL gives only directives (`extend interface I @d`): bake must work on the
+    # constructor's own defaults (`fields or []` merged with `.items()` raises; GraphQLSchema.bake swallows it and drops every
+    # later extension)
+    c_ = repo.cls(b.module.relpath, cls)
+    init = c_.methods.get("__init__")
+    if init is not None:
+        ext = RecV(cls, _strict=True)
+        it = absint.Interp(repo, b.module, classes={cls: c_})
+        params = init.positional_params[1:]
+        args = ["X"] + [([Sym("d1")] if p_ == "directives" else None) for p_ in params[1:]]
+        extended = RecV("Extended", _strict=True, **{k: (dict(v) if isinstance(v, dict) else list(v)) for k, v in old.items()})
+        env = Env()
+        env.vars["_types"] = {"X": extended}
+        schema = RecV("GraphQLSchema", find_type=LambdaV(ast.parse("lambda name: _types[name]", mode="eval").body, env), _strict=True)
+        try:
+            it.run(init, [ext] + args)
+            it.run(b, [ext, schema])
+            why = None
+        except absint.Unsupported as ex:
+            raise AnalysisError(f"{b.short}: cannot be interpreted on a directive-only extension: {ex}")
+        except absint.PyRaise as ex:
+            why = f"raises {ex.name} ({ex.text})"
+        exp = {k: (old[k] + [Sym("d1")] if k == "directives" else old[k]) for k in old}
+        ok = why is None and all(absint.norm(extended.attrs.get(k)) == absint.norm(v) for k, v in exp.items())
+        ck.ob(f"{cls}: a directive-only extension (members as the constructor defaults them) bakes, adding its directives and nothing else", ok, b, b.node,
+              construct=f"extension:{cls}:directive-only", detail=why or f"extended type afterwards: { {k: extended.attrs.get(k) for k in exp} }")
 
 
 def string_token_rows(ck, repo):
@@ -777,3 +785,38 @@ def sdl_assembly_terms(ck, repo):
             ck.ob(f"register_sdl: SDL given as {kind}{' plus module SDL' if mod else ''} is stored under the schema's own name, every piece on lines of its own", ok, f, f.node,
                   construct=f"sdl:{kind}:{int(bool(mod))}", detail=why or f"stored {got!r}; files opened {opened}")
     ck.count("sdl_assembly_cases", n, 8)
+
+
+def extension_rules(ck, repo):
+    """Type extensions (shared with C06.R6: an extension that fails inside bake is swallowed by GraphQLSchema.bake together with every
+    extension after it - valid documents using what those contribute are then refused)."""
+    # extensions merge every constructor parameter except the name
+    for rel, cls, parts in (("tartiflette/types/enum.py", "GraphQLEnumTypeExtension", {"directives": "directives", "values": "values"}),
+                            ("tartiflette/types/input_object.py", "GraphQLInputObjectTypeExtension", {"input_fields": "input_fields", "directives": "directives"}),
+                            ("tartiflette/types/object.py", "GraphQLObjectTypeExtension", {"directives": "directives", "fields": "implemented_fields", "interfaces": "interfaces_names"}),
+                            ("tartiflette/types/interface.py", "GraphQLInterfaceTypeExtension", {"directives": "directives", "fields": "implemented_fields"}),
+                            ("tartiflette/types/scalar.py", "GraphQLScalarTypeExtension", {"directives": "directives"}),
+                            ("tartiflette/types/union.py", "GraphQLUnionTypeExtension", {"directives": "directives", "types": "types"})):
+        b = repo.func(rel, f"{cls}.bake")
+        bv = FuncView(b)
+        _extension_merge_terms(ck, repo, b, cls, parts)
+        ft = bv.maybe_call("find_type")
+        ck.ob(f"{cls}.bake extends the type of the same name", ft is not None and [unparse(a) for a in ft.args] == ["self.name"], b, ft or b.node, construct=f"extension:{cls}:target")
+    # contradiction rule: an attribute defaulted to a list cannot be merged with dict methods (and vice versa)
+    DICT_ONLY, LIST_ONLY = {"items", "keys", "values", "get", "setdefault", "popitem"}, {"append", "extend", "insert", "sort", "reverse"}
+    ext_classes = [c for c in repo.all_classes() if c.name.endswith("Extension") and c.module.relpath.startswith("tartiflette/types/") and "bake" in c.methods and "__init__" in c.methods]
+    ck.count("extension_classes", len(ext_classes), 7)
+    for c in sorted(ext_classes, key=lambda c: c.name):
+        for attr, v in c.self_attrs().items():
+            lit = v.values[-1] if isinstance(v, ast.BoolOp) and isinstance(v.op, ast.Or) else None
+            if not isinstance(lit, (ast.List, ast.Dict)):
+                continue
+            used = set()
+            for m in c.methods.values():
+                for n in walk_no_nested(m.node):
+                    if isinstance(n, ast.Attribute) and isinstance(n.value, ast.Attribute) and unparse(n.value) == f"self.{attr}":
+                        used.add(n.attr)
+            bad = (used & DICT_ONLY) if isinstance(lit, ast.List) else (used & LIST_ONLY)
+            ck.ob(f"{c.name}: the default of `{attr}` ({'list' if isinstance(lit, ast.List) else 'dict'}) agrees with how bake merges it", not bad, c.methods["__init__"],
+                  c.methods["__init__"].node, construct=f"extension:{c.name}:default:{attr}",
+                  detail=f"methods used: {sorted(used)}; a mismatch raises inside bake, GraphQLSchema.bake swallows it and every later extension is silently dropped")
